@@ -80,6 +80,18 @@ def RV.elem : RV → RV
 
 def RV.derefOnce (r : RV) : RV := if r.kind == .ptr || r.kind == .iface then r.elem else r
 
+/-- what a chain of non-nil pointers ends in -/
+def GoVal.strip : GoVal → GoVal
+  | .ptr false v => v.strip
+  | v => v
+
+/-- helpers.go indirect: follow pointers and interfaces until another kind or a nil is reached -/
+def RV.derefAll : RV → RV
+  | .invalid => .invalid
+  | .iface .nil => .iface .nil
+  | .iface v => RV.of v.strip
+  | .val v => RV.of v.strip
+
 def f64IsZero : PF → Bool
   | .fin _ m _ => m == 0
   | _ => false
